@@ -24,6 +24,15 @@ class HarnessError(RuntimeError):
     pass
 
 
+class SetupMismatch(Exception):
+    """the CONNECT / CC handshake of the code under test left the two ends with parameters that contradict what was
+    announced on the wire - a verdict about the code (window / MIU agreement), not a failure of the rig"""
+
+    def __init__(self, what, cfg):
+        Exception.__init__(self, what, cfg)
+        self.what, self.cfg = what, cfg
+
+
 def payload(side, mid, n):
     tag = mid.to_bytes(4, "little")
     body = bytes(((mid * 7 + i * 13 + (0 if side == "A" else 101)) & 0xFF) for i in range(n))
@@ -93,8 +102,13 @@ class Pair(object):
         self.const = dict(rwA=a.recv_win, rwB=b.recv_win, smiuA=a.send_miu, rmiuA=a.recv_miu,
                           smiuB=b.send_miu, rmiuB=b.recv_miu, lmiuA=A.cfg["send-miu"],
                           lmiuB=B.cfg["send-miu"], agfA=bool(agfA), agfB=bool(agfB))
+        mycfg = dict(rwA=rwA, rwB=rwB, miuA=miuA, miuB=miuB, linkA=linkA, linkB=linkB, agfA=agfA, agfB=agfB)
         if a.send_win != b.recv_win or b.send_win != a.recv_win:
-            raise HarnessError("window exchange mismatch %s %s" % (a, b))
+            raise SetupMismatch("window-exchange:client(swin=%d,rwin=%d):server(swin=%d,rwin=%d)" % (
+                a.send_win, a.recv_win, b.send_win, b.recv_win), mycfg)
+        if a.send_miu > b.recv_miu or b.send_miu > a.recv_miu:
+            raise SetupMismatch("miu-exchange:client(smiu=%d,rmiu=%d):server(smiu=%d,rmiu=%d)" % (
+                a.send_miu, a.recv_miu, b.send_miu, b.recv_miu), mycfg)
         if v0:
             # start the conversation as if v0 messages had been exchanged and acknowledged in both directions
             # (all four state variables of both ends at v0): short histories then cross the modulo-16 wrap
@@ -453,6 +467,17 @@ def mutate_for_selftest(tr):
 
 def run(tier, seed):
     ck = check.Check(PID, tier, seed, "model_checking")
+    try:
+        return _run(ck, tier, seed)
+    except SetupMismatch as e:
+        # no conversation can be driven over a connection whose ends disagree about the window: report and stop
+        ck.violation("setup:" + e.what.split(":")[0] + ":" + ("server" if "server(swin" in e.what or "server(smiu" in e.what else "-"),
+                     "after CONNECT/CC the two ends hold parameters that contradict the announced ones: %s cfg=%s" % (e.what, json.dumps(e.cfg)),
+                     replay=dict(kind="setup", cfg=e.cfg))
+        return ck.finish()
+
+
+def _run(ck, tier, seed):
     quick = tier == "quick"
     t0 = time.time()
     # 1. exhaustive model checking, scaled constants
@@ -608,6 +633,15 @@ def classify(tr, line, act, why):
 
 def replay(rep, args):
     r = rep["replay"]
+    if r.get("kind") == "setup":
+        try:
+            Pair(**r["cfg"])
+        except SetupMismatch as e:
+            print("replay verdict:", e.what)
+            print("VIOLATION property=%s replay=%s" % (PID, args.replay))
+            return 1
+        print("replay verdict: handshake parameters agree")
+        return 0
     if r.get("kind") == "conn":
         from bind import c05conn
         tr = c05conn.run_conn(r["seed"], r["listener"])
